@@ -10,6 +10,8 @@ CONSTANTS
  MaxExpire = 0
  MaxKill = 0
  HelpKinds = {}
+ MaxPub = 0
+ MaxSched = 0
  Ext = {}
  MaxPad = 0
  SymFirst = FALSE
